@@ -19,8 +19,8 @@ type c14 struct{ base }
 
 func init() {
 	core.Register(c14{base{id: "C14", level: "exploration", quickB: 16, thoroughB: 32,
-		rule: "tables of 1-12 columns over {bool,int2,int4,int8,float4,float8,text,varchar,bytea,uuid,oid,date,timestamp,timestamptz}, 0-50 rows, NULL density 0-100%, encoded by the harness's own binary COPY encoder (19-byte header, rows, optional trailer); the stream is cut into CopyData messages: one message, every single cut position (exhaustive for streams <= 400 bytes), 1-byte messages, random multi-cuts, cuts inside header / field count / field length / value, empty CopyData messages interleaved; rows returned by the library's row reader must equal the rows sent (value per type, NULL as nil) and end with io.EOF, identically for all splits. Corruptions (field count +-1, 0, field length beyond the stream, length -2, stream ending mid-row, trailer mid-stream): a non-EOF error (or early EOF for the trailer), rows before it a prefix of the rows sent, no crash (child process). Non-trivial = split inside a row, trailer present, NULLs, or a corruption; distinct = (column types, rows, cut-set class, corruption).",
-		need:        []string{"streams_run", "rows_compared", "split_inside_row", "with_trailer", "single_cut_positions", "corruptions_run", "null_fields"},
+		rule: "tables of 1-12 columns over {bool,int2,int4,int8,float4,float8,text,varchar,bytea,uuid,oid,date,timestamp,timestamptz}, 0-50 rows, NULL density 0-100%, encoded by the harness's own binary COPY encoder (19-byte header, rows, optional trailer); the stream is cut into CopyData messages: one message, every single cut position (exhaustive for streams <= 400 bytes), 1-byte messages, random multi-cuts, cuts inside header / field count / field length / value, empty CopyData messages interleaved; rows returned by the library's row reader must equal the rows sent (value per type, NULL as nil) and end with io.EOF, identically for all splits. Every truncation point of small streams (<= 200 bytes) followed by CopyDone: clean end exactly on row boundaries, error elsewhere. Corruptions (field count +-1, 0, field length beyond the stream, length -2, stream ending mid-row, trailer mid-stream): a non-EOF error (or early EOF for the trailer), rows before it a prefix of the rows sent, no crash (child process). Non-trivial = split inside a row, trailer present, NULLs, or a corruption; distinct = (column types, rows, cut-set class, corruption).",
+		need:        []string{"streams_run", "rows_compared", "split_inside_row", "with_trailer", "single_cut_positions", "corruptions_run", "null_fields", "truncation_points"},
 		assumptions: append([]string{"header flags and extension length are zero (standard header); a field longer than the message limit L is not generated"}, commonAssumptions...)}})
 }
 
@@ -281,6 +281,17 @@ func (ch c14) Run(c *core.Ctx) {
 				continue
 			}
 		}
+		// every truncation point (exhaustive for small streams): a stream ending on a row
+		// boundary (or after the header / the trailer) is a clean end, everything else is an error
+		if len(stream) <= 200 {
+			okT := true
+			for cut := 1; cut < len(stream) && okT; cut++ {
+				okT = ch.truncated(c, env, t, stream, rowEnds, cut, cs)
+			}
+			if !okT {
+				continue
+			}
+		}
 		// one byte per message
 		if len(stream) <= 1500 {
 			cuts := make([]int, 0, len(stream))
@@ -311,6 +322,61 @@ func (ch c14) Run(c *core.Ctx) {
 		// corruptions
 		ch.corrupt(c, env, t, stream, rowEnds, rng, cs)
 	}
+}
+
+// truncated sends stream[:cut] followed by CopyDone.
+func (ch c14) truncated(c *core.Ctx, env *hs.Env, t c14table, stream []byte, rowEnds []int, cut int, cs any) bool {
+	obs, ok := ch.runStream(c, env, t, stream[:cut], nil, false, cs)
+	if !ok {
+		return false
+	}
+	c.Count("truncation_points", 1)
+	complete := 0
+	boundary := cut == len(c14header)
+	for _, e := range rowEnds {
+		if e <= cut {
+			complete++
+		}
+		if e == cut {
+			boundary = true
+		}
+	}
+	what := fmt.Sprintf("stream truncated at offset %d of %d", cut, len(stream))
+	c.Eval(fmt.Sprintf("%v trunc boundary=%v hdr=%v", t.OIDs, boundary, cut < len(c14header)), true)
+	if !ch.checkRows(c, t, obs, -1, "", what, cs) {
+		return false
+	}
+	if cut < len(c14header) {
+		// inside the header: nothing may come back as a row, and it is not a clean stream
+		if len(obs.Rows) != 0 {
+			c.Violate("fabricated-row", "rows returned from a stream that ends inside the header", what, cs)
+			return false
+		}
+		return true
+	}
+	if len(obs.Rows) != complete {
+		c.Violate("row-count", "rows before the truncation point lost or fabricated", fmt.Sprintf("%s: %d rows returned, %d complete rows precede the cut (reader end=%s %q)", what, len(obs.Rows), complete, obs.End, obs.ErrTxt), cs)
+		return false
+	}
+	if boundary && obs.End != "eof" {
+		c.Violate("end", "stream ending on a row boundary not accepted", fmt.Sprintf("%s: reader end=%s %q", what, obs.End, obs.ErrTxt), cs)
+		return false
+	}
+	if !boundary && obs.End != "error" {
+		c.Violate("corruption-accepted", "truncated row or trailer reported as a clean end of stream", fmt.Sprintf("%s: reader end=%s, the cut is %d byte(s) past the last row boundary", what, obs.End, cut-lastBoundary(rowEnds, cut)), cs)
+		return false
+	}
+	return true
+}
+
+func lastBoundary(rowEnds []int, cut int) int {
+	b := len(c14header)
+	for _, e := range rowEnds {
+		if e <= cut {
+			b = e
+		}
+	}
+	return b
 }
 
 func (ch c14) corrupt(c *core.Ctx, env *hs.Env, t c14table, stream []byte, rowEnds []int, rng *core.Rng, cs any) {
